@@ -148,12 +148,13 @@ const (
 	vUnknownSID
 	vDetached
 	vOtherASChain
+	vSIDNamesCA
 	nVariants
 )
 
 var variantName = []string{"normal", "foreign-sig", "tampered-payload", "two-signerinfos", "no-signerinfo", "signed-by-ca",
 	"ca-first", "one-cert", "three-certs", "no-certs", "version3", "non-data", "garbage", "truncated", "not-signeddata",
-	"unknown-sid", "detached", "other-as-chain"}
+	"unknown-sid", "detached", "other-as-chain", "sid-names-ca"}
 
 func genTRCs(r *vlib.Rand) []planTRC {
 	var ps []planTRC
@@ -372,6 +373,14 @@ func buildCMS(w *world, p plan, m *material) []byte {
 	case vDetached:
 		must(sd.AddSignerInfo(chain, m.asKey.Priv))
 		sd.EncapContentInfo.EContent = asn1.RawValue{}
+	case vSIDNamesCA: // signed with the AS key, but the signer identifier names the CA certificate
+		must(sd.AddSignerInfo(chain, m.asKey.Priv))
+		sid, err := protocol.NewIssuerAndSerialNumber(m.ca)
+		if err != nil {
+			m.buildFail = true
+			return nil
+		}
+		sd.SignerInfos[0].SID = sid
 	case vOtherASChain: // a perfectly valid request of another AS (its own chain, its own key) for THIS subject
 		must(sd.AddSignerInfo([]*x509.Certificate{m.otherAS, m.ca}, m.otherKey.Priv))
 	}
@@ -529,10 +538,11 @@ type facts struct {
 	csrSig           bool
 	csrKey           int
 	li, pi           int
+	tc               time.Time
 }
 
 func extractFacts(w *world, p plan, req []byte, mkDB func() *pki2.MemDB, Tc time.Time) facts {
-	f := facts{signerIdx: "n", latestW: "z", predW: "z", csrIA: "n", li: -1, pi: -1}
+	f := facts{signerIdx: "n", latestW: "z", predW: "z", csrIA: "n", li: -1, pi: -1, tc: Tc}
 	ci, err := protocol.ParseContentInfo(req)
 	if err != nil {
 		return f
@@ -663,7 +673,7 @@ func specAccepted(e *vlib.Env, w *world, p plan, m *material, f facts, got *x509
 		}
 		t := p.trcs[i]
 		trc := pki2.MkTRC(1, t.base, t.serial, time.Now().Add(-time.Hour), time.Now().Add(time.Hour), 0, w.rootSet(t.roots))
-		return cppki.VerifyChain(chain, cppki.VerifyOptions{TRC: []*cppki.TRC{&trc.TRC}}) == nil
+		return cppki.VerifyChain(chain, cppki.VerifyOptions{TRC: []*cppki.TRC{&trc.TRC}, CurrentTime: f.tc.Add(time.Second)}) == nil
 	}
 	switch {
 	case okAgainst(f.li):
@@ -844,12 +854,12 @@ func specIssued(e *vlib.Env, w *world, ca ent, csr *x509.CertificateRequest, cha
 
 func main() {
 	e := vlib.Init()
-	r := vlib.NewRand(uint64(e.Seed))
+	r := pki2.Rand(e.Seed)
 	w := buildWorld()
 	e.Rule = "requests: real CMS SignedData over real CSRs, per case a freshly issued requester chain (validity, CA under " +
 		"root1/root2/unknown root, subject ISD-AS), 0-3 TRCs (validity, grace, root sets, fetch failures) at whole-second " +
 		"offsets <= -1 s or >= 4 s from the case's clock second, CSR subject equal/other/missing/malformed, bad CSR " +
-		"signature, and 17 structural fabrications (foreign signature, tampered payload, 0/2 signer infos, CA as signer, " +
+		"signature, and 18 structural fabrications (foreign signature, tampered payload, 0/2 signer infos, CA as signer, " +
 		"0/1/3 certificates, order, versions, content types, garbage, unknown signer id, detached, other AS's chain); " +
 		"issuance: CAPolicy.CreateChain with explicit signing time at and around the CA validity boundaries, validity " +
 		"ending around the CA's NotAfter, P-256/384/Ed25519 CSR keys, CSR subjects, CA variants; non-trivial = the CMS " +
